@@ -706,7 +706,8 @@ def generate():
         out.append("(* the import-table entry is deleted by the tracker's clid, whichever tracker is registered there *)\n"
                    "Definition freeTracker_delkey : delkey := DelByClid.")
     elif ast.unparse(st[1]) in (
-            "if self.yourReferenceByCLID.get(tracker.clid) is tracker:\n    del self.yourReferenceByCLID[tracker.clid]",):
+            "if self.yourReferenceByCLID.get(tracker.clid) is tracker:\n    del self.yourReferenceByCLID[tracker.clid]",
+            "if self.yourReferenceByCLID.get(tracker.clid, None) is tracker:\n    del self.yourReferenceByCLID[tracker.clid]"):
         out.append("Definition freeTracker_delkey : delkey := DelByIdentity.")
     else:
         raise P.Untranslatable("freeYourReferenceTracker: unexpected deletion from yourReferenceByCLID: " + ast.unparse(st[1]))
@@ -856,7 +857,7 @@ def generate():
     fi = P.find_def(bro, "Broker.finish")
     cleared = [ast.unparse(s.targets[0])[5:] for s in fi.body if isinstance(s, ast.Assign) and len(s.targets) == 1
                and ast.unparse(s.targets[0]).startswith("self.") and isinstance(s.value, ast.Dict) and not s.value.keys]
-    for t in ("myReferenceByPUID", "myReferenceByCLID", "yourReferenceByCLID", "yourReferenceByURL"):
+    for t in ("myReferenceByPUID", "myReferenceByCLID", "yourReferenceByCLID", "yourReferenceByURL", "myGifts", "myGiftsByGiftID"):
         out.append("Definition finish_clears_%s : bool := %s." % (t, "true" if t in cleared else "false"))
     # finish() also drops the inbound calls that were parsed but never run, with their activeLocalCalls entries
     # (fix 30b3768): `for (delivery, ready_deferred) in self.inboundDeliveryQueue: self.activeLocalCalls.pop(delivery.reqID, None)`
@@ -870,6 +871,17 @@ def generate():
     if not drops and any("inboundDeliveryQueue" in t or "activeLocalCalls" in t for t in top):
         raise P.Untranslatable("Broker.finish: unrecognised handling of inboundDeliveryQueue / activeLocalCalls")
     out.append("Definition finish_drops_undelivered_calls : bool := %s." % ("true" if drops else "false"))
+    # where the two call tables are filled / emptied (lib/Conn.v): the entry of activeLocalCalls is made when the request id
+    # of an inbound call has been parsed (unless it is 0), the call is queued by scheduleCall and taken off by doNextCall,
+    # which does nothing once the Broker is disconnected
+    cu0 = ast.unparse(P.find_def(cal, "CallUnslicer.receiveChild"))
+    if "if self.reqID != 0:" not in cu0 or "self.broker.activeLocalCalls[self.reqID] = self" not in cu0:
+        raise P.Untranslatable("CallUnslicer.receiveChild no longer registers the call in activeLocalCalls when reqID != 0")
+    if "self.inboundDeliveryQueue.append((delivery, ready_deferred))" not in ast.unparse(P.find_def(bro, "Broker.scheduleCall")):
+        raise P.Untranslatable("Broker.scheduleCall no longer appends to inboundDeliveryQueue")
+    dn = [ast.unparse(x) for x in body_stmts(P.find_def(bro, "Broker.doNextCall"))]
+    if dn[:1] != ["if self.disconnected:\n    return"] or "delivery, ready_deferred = self.inboundDeliveryQueue.pop(0)" not in dn:
+        raise P.Untranslatable("Broker.doNextCall: unexpected shape")
     cl = P.find_def(bro, "Broker.connectionLost")
     if "self.finish(why)" not in [ast.unparse(s) for s in cl.body]:
         raise P.Untranslatable("Broker.connectionLost no longer calls self.finish(why)")
